@@ -264,13 +264,26 @@ func runC07(r *rng, tier string) {
 	for i := 0; i < nrand; i++ {
 		cases = append(cases, gcase{r.randomGraph(), "random"})
 	}
+	if tier == "thorough" {
+		wfaultMaxWrites = 400
+	}
+	nmulti := nrand / 4
+	for i := 0; i < nmulti; i++ {
+		cases = append(cases, gcase{r.randomGraphK(2 + r.below(3)), "random-stream"})
+	}
 	for i, gc := range cases {
 		gc := gc
 		runCase(func() { doGraph(gc, true) })
 		if i%97 == 0 { // the same value with no Pickler installed: an error iff it contains a host object
 			runCase(func() { doGraph(gc, false) })
 		}
+		// a tuple of 2+ values doubles as a stream: its elements through ONE Encoder, read back by ONE Decoder
+		runCase(func() { doStream(gc) })
+		if gc.class != "random" || i%40 == 0 { // a writer failing its k-th Write, for every k
+			runCase(func() { doFaultyWrites(gc) })
+		}
 	}
+	statefulCases()
 	// exhaustive: every BININT2 payload, through Decode and through the round trip of the integer it should denote
 	for n := 0; n < 65536; n++ {
 		n := n
@@ -397,6 +410,31 @@ func replay(in string) {
 	case "dec":
 		bs, _ := hex.DecodeString(c["bytes"].(string))
 		runCase(func() { doBytes("dec.replay", bs, c["host"].(string), true) })
+	case "rts":
+		// the elements of the stream as one tuple: doStream takes it apart again
+		t := c["graph"].(string)
+		bar := strings.Index(t, "|")
+		rs := strings.Split(t[:bar], "&")
+		objs := t[bar+1:]
+		n := 0
+		if objs != "" {
+			n = strings.Count(objs, ";") + 1
+			objs += ";"
+		}
+		g, err := parseGraph(fmt.Sprintf("r%d|%sT:%s", n, objs, strings.Join(rs, ",")))
+		if err != nil {
+			fmt.Fprintln(os.Stderr, "bad graph:", err)
+			os.Exit(2)
+		}
+		runCase(func() { doStream(gcase{g, "replay"}) })
+	case "wfault":
+		g, err := parseGraph(c["graph"].(string))
+		if err != nil {
+			os.Exit(2)
+		}
+		runCase(func() { doFaultyWrites(gcase{g, "replay"}) })
+	case "stateful":
+		statefulCases()
 	case "rec":
 		replayRecord, _ = c["record"].(string)
 		runRecords(&rng{s: 1}, "quick")
